@@ -63,20 +63,37 @@ func hoursFromNow(rng *rand.Rand, sign int) int64 {
 	return time.Now().Add(time.Duration(sign) * time.Duration(2+rng.Intn(900)) * time.Hour).Unix()
 }
 
+// genNumForm: half of the NumericDate claims are plain integers (what most issuers emit), the
+// other half use one of the other legal JSON number forms.
+func genNumForm(rng *rand.Rand) string {
+	if rng.Intn(2) == 0 {
+		return "int"
+	}
+	return pick(rng, numFormsNonInt...)
+}
+
 func genClaims(rng *rand.Rand) (map[string]interface{}, string) {
 	cl := map[string]interface{}{"sub": pick(rng, "1234567890", "josé", "svc-account")}
 	class := ""
+	date := func(name string, sign int) {
+		d := mkNumDate(rng, hoursFromNow(rng, sign), genNumForm(rng))
+		cl[name] = d
+		if class != "" {
+			class += "+"
+		}
+		class += name
+		if d.Form != "int" {
+			class += "/" + d.Form
+		}
+	}
 	if rng.Intn(3) > 0 {
-		cl["exp"] = hoursFromNow(rng, +1)
-		class += "exp"
+		date("exp", +1)
 	}
 	if rng.Intn(3) == 0 {
-		cl["nbf"] = hoursFromNow(rng, -1)
-		class += "+nbf"
+		date("nbf", -1)
 	}
 	if rng.Intn(3) == 0 {
-		cl["iat"] = hoursFromNow(rng, -1)
-		class += "+iat"
+		date("iat", -1)
 	}
 	if rng.Intn(4) == 0 {
 		cl["name"] = pick(rng, "Jöhn Dœ", "管理员", "a \"quoted\" name")
@@ -86,6 +103,17 @@ func genClaims(rng *rand.Rand) (map[string]interface{}, string) {
 		class = "noexp"
 	}
 	return cl, class
+}
+
+// claimNumForms lists the literal forms of the NumericDate claims present in cl.
+func claimNumForms(cl map[string]interface{}) map[string]string {
+	m := map[string]string{}
+	for k, v := range cl {
+		if d, ok := v.(numDate); ok {
+			m[k] = d.Form
+		}
+	}
+	return m
 }
 
 // putToken places the token where the configuration looks for it.
@@ -151,12 +179,27 @@ func jwtMutations(rng *rand.Rand, c jwtCfg, claims map[string]interface{}, tok s
 		}
 		return m
 	}
-	ex := cp()
-	ex["exp"] = hoursFromNow(rng, -1)
-	ms = append(ms, tokMut{"expired-by-hours", jwtEncode(c.Alg, c.Alg, c.key(), ex)})
-	nb := cp()
-	nb["nbf"] = hoursFromNow(rng, +1)
-	ms = append(ms, tokMut{"not-before-in-hours", jwtEncode(c.Alg, c.Alg, c.key(), nb)})
+	// exp moved hours into the past / nbf moved hours into the future: once written as a plain
+	// integer and once in another legal JSON number form (fraction, exponent); the instant a
+	// NumericDate denotes, not its spelling, decides whether the token is currently valid
+	for _, form := range []string{"int", pick(rng, numFormsNonInt...)} {
+		sfx := ""
+		if form != "int" {
+			sfx = ":num-" + form
+		}
+		ex := cp()
+		ex["exp"] = mkNumDate(rng, hoursFromNow(rng, -1), form)
+		ms = append(ms, tokMut{"expired-by-hours" + sfx, jwtEncode(c.Alg, c.Alg, c.key(), ex)})
+	}
+	for _, form := range []string{"int", pick(rng, numFormsNonInt...)} {
+		sfx := ""
+		if form != "int" {
+			sfx = ":num-" + form
+		}
+		nb := cp()
+		nb["nbf"] = mkNumDate(rng, hoursFromNow(rng, +1), form)
+		ms = append(ms, tokMut{"not-before-in-hours" + sfx, jwtEncode(c.Alg, c.Alg, c.key(), nb)})
+	}
 	// structure
 	ms = append(ms, tokMut{"mac-segment-dropped", parts[0] + "." + parts[1]})
 	ms = append(ms, tokMut{"mac-emptied", parts[0] + "." + parts[1] + "."})
@@ -169,8 +212,8 @@ func TestVerif_C06_JWT(t *testing.T) {
 	}
 	r := kit.Start(t, "C06")
 	defer r.Finish()
-	r.Rule("JWT: per case a Validator{jwt: alg HS256/384/512, random 1-48 byte secret, optional cookieName} is built through filters.NewSpec+Init; an independent RFC 7515 encoder issues a token (claims with/without exp/nbf/iat, hours away from now; non-ASCII claims) carried as Bearer header or cookie on a random request (methods, escaped paths, bodies) parsed from wire bytes by net/http + httpprot.NewRequest + FetchPayload; valid token must give result \"\"; 15 single mutations (byte flip in each segment, alg header changed, re-MACed under another HS alg with the right secret, alg none, secret off by one bit / hex text / extended, expired or not-yet-valid by hours, MAC dropped/emptied, token removed, wrong scheme) must each give invalid+401/400; distinct = (alg, carrier, claim class, mutation)")
-	r.Assume("exp/nbf/iat are JSON integers at least 2 h away from now; iat never in the future; token never present in both cookie and header; even-length hex secrets; scheme spelled 'Bearer'")
+	r.Rule("JWT: per case a Validator{jwt: alg HS256/384/512, random 1-48 byte secret, optional cookieName} is built through filters.NewSpec+Init; an independent RFC 7515 encoder issues a token (claims with/without exp/nbf/iat, hours away from now, each NumericDate written either as a plain integer or in another legal JSON number form: fraction, '.0', exponent notation with or without sub-second digits, negative exponent; non-ASCII claims) carried as Bearer header or cookie on a random request (methods, escaped paths, bodies) parsed from wire bytes by net/http + httpprot.NewRequest + FetchPayload; valid token must give result \"\"; 17 single mutations (byte flip in each segment, alg header changed, re-MACed under another HS alg with the right secret, alg none, secret off by one bit / hex text / extended, expired or not-yet-valid by hours with the moved claim written once as an integer and once in a non-integer number form, MAC dropped/emptied, token removed, wrong scheme) must each give invalid+401/400; distinct = (alg, carrier, claim class incl. number forms, mutation)")
+	r.Assume("exp/nbf/iat are positive JSON numbers (RFC 7519 NumericDate, any RFC 8259 number form, all digits kept so the value is exact to the sub-second) at least 2 h away from now; iat never in the future; token never present in both cookie and header; even-length hex secrets; scheme spelled 'Bearer'")
 	if !c06SelfCheck(r) {
 		return
 	}
@@ -190,7 +233,7 @@ func TestVerif_C06_JWT(t *testing.T) {
 		} else if cfg.Cookie != "" {
 			carrier = "header(cookie-configured)"
 		}
-		r.Case(i, map[string]interface{}{"jwt": cfg, "claims": claims, "carrier": carrier, "request": descReq(g.W)})
+		r.Case(i, map[string]interface{}{"jwt": cfg, "claims": claims, "num_forms": claimNumForms(claims), "carrier": carrier, "request": descReq(g.W)})
 		v, err := newValidator("kind: Validator\nname: v\n"+cfg.yaml(""), nil)
 		if err != nil {
 			r.Violation("jwt:well-formed-spec-rejected", map[string]interface{}{"config": cfg, "err": err.Error()})
@@ -207,6 +250,10 @@ func TestVerif_C06_JWT(t *testing.T) {
 		if !p.expectAccept(fmt.Sprintf("jwt:valid-rejected:%s:%s:%s", cfg.Alg, carrier, cclass), w, map[string]interface{}{"token": tok, "claims": claims}) {
 			v.Close()
 			continue
+		}
+		for cn, f := range claimNumForms(claims) {
+			r.Count("valid_numform:"+f, 1)
+			r.Cover("jwt:valid-numform:" + cn + ":" + f)
 		}
 		for _, m := range jwtMutations(rng, cfg, claims, tok) {
 			mw := g.W.clone()
@@ -235,6 +282,14 @@ func TestVerif_C06_JWT(t *testing.T) {
 	r.Require("mutated_rejected", 1)
 	r.Require("mut:alg-changed-and-remaced-with-secret", 1)
 	r.Require("mut:expired-by-hours", 1)
+	r.Require("mut:not-before-in-hours", 1)
+	// every non-integer spelling of a NumericDate must have been seen in an accepted token, in an
+	// expired one and in a not-yet-valid one
+	for _, f := range numFormsNonInt {
+		r.Require("valid_numform:"+f, 1)
+		r.Require("mut:expired-by-hours:num-"+f, 1)
+		r.Require("mut:not-before-in-hours:num-"+f, 1)
+	}
 }
 
 // ======================================================================================= Basic
@@ -872,7 +927,7 @@ func TestVerif_C06_Multi(t *testing.T) {
 	}
 	r := kit.Start(t, "C06")
 	defer r.Finish()
-	r.Rule("Several methods: Validators combining header rules (values or anchored regexp, single-valued request headers), JWT (cookie or header), Basic (htpasswd file) and signature (header mode) in the 6 combinations whose credentials can coexist in one request; the fully valid request must give \"\"; then, for each configured method in turn, ONLY that method's credential is made invalid (rule header missing/wrong, token MACed with a wrong secret, wrong password, signature hex char changed) while all others stay valid (the signature is re-computed after the change where it covers the changed header) and the result must be invalid+401/400; distinct = (combination, method invalidated, how)")
+	r.Rule("Several methods: Validators combining header rules (values or anchored regexp, single-valued request headers), JWT (cookie or header), Basic (htpasswd file) and signature (header mode) in the 6 combinations whose credentials can coexist in one request; the fully valid request must give \"\"; then, for each configured method in turn, ONLY that method's credential is made invalid (rule header missing/wrong, token MACed with a wrong secret or expired by hours (exp written as an integer or in another JSON number form), wrong password, signature hex char changed) while all others stay valid (the signature is re-computed after the change where it covers the changed header) and the result must be invalid+401/400; distinct = (combination, method invalidated, how)")
 	r.Assume("passwords without ':' and bodies empty when a signature is configured (those inputs belong to the single-method parts); a header rule has either values or an anchored regexp")
 	if !c06SelfCheck(r) {
 		return
@@ -965,7 +1020,7 @@ func TestVerif_C06_Multi(t *testing.T) {
 				case "jwt:wrong-secret":
 					tok = jwtEncode(jc.Alg, jc.Alg, append([]byte("wrong"), jc.key()...), claims)
 				case "jwt:expired":
-					tok = jwtEncode(jc.Alg, jc.Alg, jc.key(), map[string]interface{}{"sub": "x", "exp": hoursFromNow(rng, -1)})
+					tok = jwtEncode(jc.Alg, jc.Alg, jc.key(), map[string]interface{}{"sub": "x", "exp": mkNumDate(rng, hoursFromNow(rng, -1), genNumForm(rng))})
 				}
 				putToken(&w, jc, jc.Cookie != "", tok, rng)
 			}
